@@ -107,6 +107,10 @@ theorem parsed_block_header_prefix (b : Bytes) (blk : Block) (r : Bytes) (h : bl
   have := sound_block b blk r h
   exact ⟨encTx blk.miner ++ encVec id blk.hashes ++ r, by rw [this]; simp [encBlock, List.append_assoc]⟩
 
+/-- a shape-revealing stand-in for the hash function in examples: the argument in brackets (`40 … 41`), so that the value of a tree
+hash spells out which leaves were kept, which were paired and how the nodes were combined -/
+def bracketH : Bytes → Bytes := fun b => 40 :: b ++ [41]
+
 /-! ### (c) header layout -/
 
 /-- the model's header encoder on the header built from a description is the by-the-book layout
